@@ -24,7 +24,7 @@ func rulePrefix(c *Ctx, prefix string, want map[string]bool) {
 	inner := `invoke:` + reQ(pkgDHCP6) + `\.DHCPv6\.GetInnerMessage\(\$1\)#0`
 	keyC := reQ(modPath) + `/plugins/prefix\.recordKey\(\(` + reQ(pkgDHCP6) + `\.MessageOptions\)\.ClientID\(` + inner + `\.Options\)\)`
 	knownRe := `\$0\.Records\[` + keyC + `\]`
-	allocRe := `invoke:` + reQ(modPath) + `/plugins/allocators\.Allocator\.Allocate@t\d+\(\$0\.allocator,.*\)`
+	allocRe := `invoke:` + reQ(modPath) + `/plugins/allocators\.Allocator\.Allocate@(?:[\w$]+·)?t\d+\(\$0\.allocator,.*\)`
 	bad := map[string][]string{}
 	addb := func(rule, s string) {
 		for _, x := range bad[rule] {
@@ -94,7 +94,7 @@ func rulePrefix(c *Ctx, prefix string, want map[string]bool) {
 		if s, ok := in.(*ssa.Store); ok {
 			if fa, ok := s.Addr.(*ssa.FieldAddr); ok && fieldName(fa) == "IaId" && namedOf(fa.X.Type()) == pkgDHCP6+".OptIAPD" {
 				v := ex.Canon(st, s.Val).S
-				if regexp.MustCompile(`IAPD\(` + inner + `\.Options\)\[\(φt\d+ \+ 1\)\]\.IaId$`).MatchString(v) {
+				if regexp.MustCompile(`IAPD\(` + inner + `\.Options\)\[\(φ(?:[\w$]+·)?t\d+ \+ 1\)\]\.IaId$`).MatchString(v) {
 					return "iaid-ok"
 				}
 				return "iaid-other:" + v
@@ -111,7 +111,7 @@ func rulePrefix(c *Ctx, prefix string, want map[string]bool) {
 			if f := call.Call.StaticCallee(); f != nil && f.Name() == "Add" && len(call.Call.Args) == 2 {
 				// iapdResp.Options.Add(&OptStatusCode{...}) (read before the call's effects)
 				if al, ok := unbox(call.Call.Args[1]).(*ssa.Alloc); ok && namedOf(al.Type()) == pkgDHCP6+".OptStatusCode" {
-					sc, _ := st.ReadLocal("new@" + al.Name() + ".StatusCode")
+					sc, _ := st.ReadLocal("new@" + anm(al) + ".StatusCode")
 					st.seen["status:"+sc] = true
 				}
 			}
@@ -161,7 +161,7 @@ func rulePrefix(c *Ctx, prefix string, want map[string]bool) {
 				// FRESH: the element was (conditionally) extended before being copied into the reply
 				elem := known[0][:len(known[0])]
 				if v, _ := histFact(st, "bool", regexp.MustCompile(`^\(time\.Time\)\.Before\(`+reQ(elem)+`\.Expire,`)); v == -1 {
-					addb("PD.FRESH", fmt.Sprintf("a known lease is handed back at %s without its expiry having been compared with now + lease time", c.P.InstrPos(in)))
+					addb("PD.FRESH", fmt.Sprintf("a known lease is handed back at %s without its expiry having been compared with now + lease time (decided: %s)", c.P.InstrPos(in), strings.Join(shortAll(st.HistStrings()), " ∧ ")))
 				} else if v == 1 && !st.seen["extend:"+elem] {
 					addb("PD.FRESH", fmt.Sprintf("a known lease that expires too early is handed back at %s without being extended", c.P.InstrPos(in)))
 				}
@@ -186,7 +186,7 @@ func rulePrefix(c *Ctx, prefix string, want map[string]bool) {
 				counts["allocate"]++
 				// REUSE-FIRST: only for hints no known lease satisfied: Test(satisfied, <index of the hint being allocated>) == false
 				arg := ex.Canon(st, x.Call.Args[0]).S
-				im := regexp.MustCompile(`\[(\(φt\d+ \+ 1\))\]\.Prefix$`).FindStringSubmatch(arg)
+				im := regexp.MustCompile(`\[(\(φ(?:[\w$]+·)?t\d+ \+ 1\))\]\.Prefix$`).FindStringSubmatch(arg)
 				okT := false
 				if im != nil {
 					for _, k := range sortedKeys(st.hist) {
@@ -233,7 +233,7 @@ func rulePrefix(c *Ctx, prefix string, want map[string]bool) {
 			if ex.Canon(st, addOpt.Call.Value).S != "$2" {
 				addb("PD.ONE-PER-IAPD", "the IA_PD is not added to the response")
 			}
-			empty, _ := histEq(st, regexp.MustCompile(`^len\(new@`+al.Name()+`\.Options\.Options\)$`), "0")
+			empty, _ := histEq(st, regexp.MustCompile(`^len\(new@`+reQ(anm(al))+`\.Options\.Options\)$`), "0")
 			switch empty {
 			case 1:
 				if !st.seen["status:"+noPfx] {
@@ -325,7 +325,7 @@ func rulePrefix(c *Ctx, prefix string, want map[string]bool) {
 		if pl == "" || pl != vl {
 			addb("PD.LIFETIME", fmt.Sprintf("preferred and valid lifetime of a delegated prefix are not the same value (preferred=%s valid=%s): preferred ≤ valid is not guaranteed", shortName(stripAt(pl)), shortName(stripAt(vl))))
 		}
-		if !regexp.MustCompile(`^time\.Until(@t\d+)?\(.*\.Expire\)$`).MatchString(vl) {
+		if !regexp.MustCompile(`^time\.Until(@(?:[\w$]+·)?t\d+)?\(.*\.Expire\)$`).MatchString(vl) {
 			addb("PD.LIFETIME", "the lifetime is not the time remaining until the lease's expiry: "+shortName(stripAt(vl)))
 		}
 		if !strings.Contains(pv, "plugins/prefix.dup") || !strings.Contains(pv, ".Prefix") {
@@ -375,7 +375,7 @@ func rulePrefix(c *Ctx, prefix string, want map[string]bool) {
 }
 
 func checkExpire(c *Ctx, addb func(rule, s string), e string) {
-	m := regexp.MustCompile(`^\(time\.Time\)\.Add(@t\d+)?\(time\.Now(@t\d+)?\(\),(-?\d+)\)$`).FindStringSubmatch(e)
+	m := regexp.MustCompile(`^\(time\.Time\)\.Add(@(?:[\w$]+·)?t\d+)?\(time\.Now(@(?:[\w$]+·)?t\d+)?\(\),(-?\d+)\)$`).FindStringSubmatch(e)
 	if m == nil {
 		addb("PD.LIFETIME", "a lease expiry is not now + a constant duration: "+shortName(stripAt(e)))
 		return
